@@ -53,3 +53,6 @@ func (l *logLogger) Println(v ...interface{})          { l.l.Println(v...) }
 func (l *logLogger) SetFlags(flag int)                 { l.l.SetFlags(flag) }
 func (l *logLogger) SetOutput(w io.Writer)             { l.l.SetOutput(w) }
 func (l *logLogger) Writer() io.Writer                 { return l.l.Writer() }
+
+// logDefault returns the standard logger, wrapped.
+func logDefault() *logLogger { return &logLogger{log.Default()} }
